@@ -122,6 +122,31 @@ def rule_pair(ctx) -> RuleResult:
     res.inst("Workspace.close: the final save of the root subtree happens before File.close()", nontrivial=True, ok=ok)
     if not ok:
         res.find("Workspace", "close", "final save after (or without) File.close()", cl.where, "the last save runs on a closed handle or not at all")
+    starts_w = [m for n in g.nodes if n.kind == "test" and "geoh5.mode in" in unparse(n.ast) for m, l in n.succ if l == "true"]
+    if not starts_w:
+        raise AnalysisError("Workspace.close: writable-mode test not found")
+    is_save = lambda n: has_call(n, lambda c: isinstance(c.func, ast.Attribute) and c.func.attr == "_io_call" and c.args and unparse(c.args[0]) == "H5Writer.save_entity")  # noqa: E731
+    skipped = reach(g, starts_w, avoid=is_save)
+    ok = not any(closes(n) for n in skipped)
+    res.inst("Workspace.close: on every writable path the final save happens before File.close()", nontrivial=True, ok=ok)
+    if not ok:
+        res.find("Workspace", "close", "the final save of the root subtree is conditional", cl.where,
+                 "operations completed before the close (entities created with save_on_creation=False, moved children) are not in the file for some workspaces")
+    sa = p.func("Workspace.save_as")
+    g2 = CFG(sa.node)
+    copies = [n for n in g2.nodes if n.ast is not None and not isinstance(n.ast, list) and n.kind in ("stmt", "with") and
+              any(isinstance(c, ast.Call) and (unparse(c.func) in ("shutil.copy", "shutil.copyfile", "shutil.copy2") or (isinstance(c.func, ast.Attribute) and c.func.attr in ("write", "getbuffer")))
+                  for c in (ast.walk(n.ast) if n.kind == "stmt" else [x for it in n.ast.items for x in ast.walk(it.context_expr)]))]
+    closes2 = lambda n: has_call(n, lambda c: unparse(c.func) == "self.close")  # noqa: E731
+    dom2 = dominators(g2)
+    if not copies:
+        raise AnalysisError("Workspace.save_as: byte copy not found")
+    ok = all(any(closes2(d) or (d.kind == "test" and "_geoh5" in unparse(d.ast)) for d in dom2.get(c, ())) and
+             not (set(reach(g2, [c])) & {n for n in g2.nodes if closes2(n)}) for c in copies)
+    res.inst("Workspace.save_as: close() (flush) precedes the byte copy", nontrivial=True, ok=ok)
+    if not ok:
+        res.find("Workspace", "save_as", "bytes are copied before the workspace is closed", sa.where,
+                 "the copy is taken from an open, unflushed file: the saved file misses everything done since the source was last closed")
     return res
 
 
